@@ -7,6 +7,7 @@ import (
 	"fmt"
 	"sort"
 	"strings"
+	"time"
 
 	"github.com/lidofinance/dc4bc/client/modules/keystore"
 	"github.com/lidofinance/dc4bc/client/types"
@@ -321,6 +322,13 @@ func runC08(w *World, tier string) (bool, interface{}) {
 	}
 	// (b) a fresh node with the same identity replaying L from offset 0 reaches the live state
 	v := w.Nodes[w.Tape.Choose(n, "replayWho")]
+	if w.Tape.Bool(1, 3, "replayMuchLater") {
+		// the log is replayed long after it was written: the state is a function
+		// of the log (message timestamps), not of the moment it is consumed
+		d := []time.Duration{8 * 24 * time.Hour, 30 * 24 * time.Hour, 400 * 24 * time.Hour}[w.Tape.Choose(3, "later")]
+		w.Advance(d)
+		w.Stats.Fault("clock-jump-before-replay")
+	}
 	variants := []struct {
 		name               string
 		batching, restarts bool
